@@ -2981,3 +2981,58 @@ breaker('C14', 'weakref-dead-oid-test-for-unowned-only', 'C14.R11', SERPY,
         'ObjectWriter.persistent_id',
         'if target is not None and target._p_oid != oid:',
         'if target is not None and target._p_oid is None:')
+
+breaker('C08', 'packer-reopens-buffered', 'C08.R12', PACKPY,
+        'FileStoragePacker.pack',
+        'self._file = open(self._path, "rb", 0)',
+        'self._file = open(self._path, "rb")')
+twin('C08', 'packer-reopens-unbuffered-by-keyword', PACKPY,
+     'FileStoragePacker.pack',
+     'self._file = open(self._path, "rb", 0)',
+     'self._file = open(self._path, "rb", buffering=0)')
+breaker('C08', 'blob-moved-into-place-outside-the-lock', 'C08.R13', BLOBPY,
+        'BlobStorageMixin._blob_storeblob',
+        '''            self.dirty_oids.append((oid, serial))
+            rename_or_copy_blob(blobfilename, targetname)
+''', '''            self.dirty_oids.append((oid, serial))
+        rename_or_copy_blob(blobfilename, targetname)
+''')
+breaker('C08', 'demo-pack-time-recorded-after-the-pack', 'C08.R14', DSPY,
+        'DemoStorage.pack',
+        '''            if packed_to > previous:
+                self._packed_to = packed_to
+        try:
+            self.changes.pack(t, referencesf, gc=False)
+''', '''            pass
+        try:
+            self.changes.pack(t, referencesf, gc=False)
+            with self._lock:
+                if packed_to > self._packed_to:
+                    self._packed_to = packed_to
+''')
+breaker('C08', 'demo-pack-time-moves-back', 'C08.R14', DSPY,
+        'DemoStorage.pack',
+        '''            if packed_to > previous:
+                self._packed_to = packed_to
+''', '''            self._packed_to = packed_to
+''')
+twin('C08', 'demo-pack-time-raised-with-max', DSPY, 'DemoStorage.pack',
+     '''            if packed_to > previous:
+                self._packed_to = packed_to
+''', '''            self._packed_to = max(self._packed_to, packed_to)
+''')
+twin('C08', 'demo-pack-time-guard-flipped', DSPY, 'DemoStorage.pack',
+     '''            if packed_to > previous:
+                self._packed_to = packed_to
+''', '''            if not previous >= packed_to:
+                self._packed_to = packed_to
+''')
+breaker('C16', 'demo-begin-holds-base-against-own-last', 'C16.R10', DSPY,
+        'DemoStorage.tpc_begin',
+        'if last > self.changes.lastTransaction():',
+        'if last > self.lastTransaction():')
+twin('C16', 'demo-begin-changes-last-in-a-local', DSPY,
+     'DemoStorage.tpc_begin',
+     '''                if last > self.changes.lastTransaction():''',
+     '''                mine = self.changes.lastTransaction()
+                if mine < last:''')
